@@ -201,13 +201,89 @@ impl Prop for ConfigDiff {
     }
 }
 
-pub const RULE: &str = "cases = (format, any input incl. out-of-domain FASTQ, configuration A, configuration B, mode in {next, records(), plain record-set loop}); configuration = capacity (absolute or aimed at record boundaries) x permissive policy (Std, DoubleUntil, Add(k), DoubleUntilLimited with huge limit) x chunk script (all / 1 / 2 / 3 / random) x Interrupted pattern (none / scattered / storm). Oracle: the two flat traces (records, errors with all fields, positions, End point) are identical; additionally configuration A is re-run with the tightest limited policy that still permits every size it adopted (RefuseAbove / DoubleUntilLimited with limit = the first size of the policy's growth chain at which the largest record fits) and must give the same outcome. Non-trivial = the two runs really exercised different buffer alignments (different capacity, number of source reads or growth steps) and at least one record or error was produced. Distinct = hash(case).";
+pub const RULE: &str = "cases = (format, any input incl. out-of-domain FASTQ, configuration A, configuration B, mode in {next, records(), plain record-set loop}); configuration = capacity (absolute or aimed at record boundaries) x permissive policy (Std, DoubleUntil, Add(k), DoubleUntilLimited with huge limit) x chunk script (all / 1 / 2 / 3 / random) x Interrupted pattern (none / scattered / storm). Oracle: the two flat traces (records, errors with all fields, positions, End point) are identical; additionally configuration A is re-run with the tightest limited policy that still permits every size it adopted (RefuseAbove / DoubleUntilLimited with limit = the first size of the policy's growth chain at which the largest record fits) and must give the same outcome. Exhaustive sub-checks: every string up to length 5 (thorough: 7) over a structural alphabet x every pair of capacities 3..8 (thorough: 3..10), even capacities read one byte at a time. Non-trivial = the two runs really exercised different buffer alignments (different capacity, number of source reads or growth steps) and at least one record or error was produced. Distinct = hash(case).";
 
 pub fn run(tier: Tier) -> i32 {
     let mut run = Run::new("C03", tier, "exploration");
     let p = ConfigDiff;
     run.replays("config-differential", &p);
     run.generated("config-differential", &p, tier.pick(200_000, 4_000_000));
+    // complete small scope: every string over a structural alphabet x every pair of capacities, next() mode
+    let (max_len, max_cap) = if tier == Tier::Quick { (5u32, 8usize) } else { (7u32, 10usize) };
+    for (format, alphabet) in [(Format::Fasta, &b">\n\rA "[..]), (Format::Fastq, &b"@+\n\rA"[..])] {
+        let k = alphabet.len() as u64;
+        let mut total = 0u64;
+        let mut starts = Vec::new();
+        for l in 0..=max_len {
+            starts.push(total);
+            total += k.pow(l);
+        }
+        let space = format!("{:?}: all strings of length 0..={} over {:?} x all pairs of capacities 3..={} (next() until End + 2; B reads one byte at a time)", format, max_len, String::from_utf8_lossy(alphabet), max_cap);
+        let sub = if format == Format::Fasta { "exhaustive-pairs-fasta" } else { "exhaustive-pairs-fastq" };
+        run.exhaustive_par(sub, &space, total, move |i, ctx| {
+            let mut l = 0usize;
+            while l + 1 < starts.len() && starts[l + 1] <= i {
+                l += 1;
+            }
+            let mut x = i - starts[l];
+            let mut sbytes = Vec::with_capacity(l);
+            for _ in 0..l {
+                sbytes.push(alphabet[(x % k) as usize]);
+                x /= k;
+            }
+            let one = crate::source::Script { chunks: vec![1], ..Default::default() };
+            let all = crate::source::Script::default();
+            let max = l + 6;
+            // read once per capacity, then compare all pairs
+            let mut runs = Vec::new();
+            for cap in 3..=max_cap {
+                let script = if cap % 2 == 0 { &one } else { &all };
+                let r = crate::engine::guarded(|| {
+                    let r = read_all(format, &sbytes, cap, crate::policy::PolKind::Std, script, Mode::Next, max);
+                    crate::interp_livelock(&r.src, format)?;
+                    Ok(())
+                });
+                let case = |a: usize, b: usize| Case {
+                    format,
+                    input: B(sbytes.clone()),
+                    a: Cfg { cap: a, policy: crate::policy::PolKind::Std, script: if a % 2 == 0 { one.clone() } else { all.clone() } },
+                    b: Cfg { cap: b, policy: crate::policy::PolKind::Std, script: if b % 2 == 0 { one.clone() } else { all.clone() } },
+                    mode: Mode::Next,
+                };
+                if let Err(f) = r {
+                    return Err((serde_json::to_value(&case(cap, cap)).unwrap(), f));
+                }
+                let r = read_all(format, &sbytes, cap, crate::policy::PolKind::Std, script, Mode::Next, max);
+                runs.push((cap, r.outs, r.pos));
+                let _ = case;
+            }
+            for a in 0..runs.len() {
+                for b in a + 1..runs.len() {
+                    ctx.eval();
+                    if runs[a].1 != runs[b].1 || runs[a].2 != runs[b].2 {
+                        let c = Case {
+                            format,
+                            input: B(sbytes.clone()),
+                            a: Cfg { cap: runs[a].0, policy: crate::policy::PolKind::Std, script: if runs[a].0 % 2 == 0 { one.clone() } else { all.clone() } },
+                            b: Cfg { cap: runs[b].0, policy: crate::policy::PolKind::Std, script: if runs[b].0 % 2 == 0 { one.clone() } else { all.clone() } },
+                            mode: Mode::Next,
+                        };
+                        return Err((
+                            serde_json::to_value(&c).unwrap(),
+                            crate::engine::Failure::new(
+                                format!("{}/Next/outcome-depends-on-configuration", fmt_name(format)),
+                                format!("input {:?}: capacity {} gives {:?} (positions {:?}), capacity {} gives {:?} (positions {:?})", B(sbytes.clone()), runs[a].0, runs[a].1, runs[a].2, runs[b].0, runs[b].1, runs[b].2),
+                            ),
+                        ));
+                    }
+                }
+            }
+            if l >= 2 {
+                ctx.nontrivial(&(format, &sbytes), &serde_json::json!({"format": format, "input": crate::util::esc(&sbytes), "capacities": format!("3..={}", max_cap)}));
+            }
+            Ok(())
+        });
+    }
     let h = super::huge::HugeDiff;
     run.replays("huge-records", &h);
     run.generated("huge-records", &h, tier.pick(4, 40));
@@ -218,5 +294,8 @@ pub fn run(tier: Tier) -> i32 {
 }
 
 pub fn replay(run: &mut Run, file: &std::path::Path) -> Option<bool> {
-    run.replay_file("config-differential", &ConfigDiff, file, true).or_else(|| run.replay_file("huge-records", &super::huge::HugeDiff, file, true))
+    run.replay_file("config-differential", &ConfigDiff, file, true)
+        .or_else(|| run.replay_file("exhaustive-pairs-fasta", &ConfigDiff, file, true))
+        .or_else(|| run.replay_file("exhaustive-pairs-fastq", &ConfigDiff, file, true))
+        .or_else(|| run.replay_file("huge-records", &super::huge::HugeDiff, file, true))
 }
